@@ -3,9 +3,9 @@ import json, os, shutil
 from . import common as C
 
 MANIFEST = dict(
-   technique="Lean 4 proof over access sets: (a) lock-sets of all process-wide / lazily written state extracted from the sources by a go/ast translator (regenerated into Gozod/Gen/LockSets.lean on every run) and proved race-free by evaluation of the whole table; (b) the C08/C12/C15 frame theorems: every schema operation writes only locations it allocated. Failing-schedule search: the harness built with -race, goroutines x operation classes on shared schemas, results cross-checked with run-alone results",
-   text="c14_racefree: any two accesses in the regenerated table to one location are both reads, both atomic, ordered by one sync.Once, or inside critical sections of one mutex (writers in W mode) — registry map, config pointer, modifier priority counter, regex caches. c14_schema_ops_read_only: chaining calls, ToJSONSchema and default-resolving Parse leave every pre-existing store location untouched (writes go to locations allocated by the call), so concurrent operations on shared schemas conflict on no schema location. conflicts_complete: a table without conflicting cells (LockSet.conflicts, evaluated by the driver to aim the race harness when the table proof breaks) is race-free. Witnesses locales_unsynchronised and lazy_cache_unsynchronised: the two locations excluded (open known findings), both confirmed by the race detector.",
-   note="PARTIAL. The Go memory model, the sync primitives, the scheduler and deadlock freedom are not modelled; 'every result equals the run-alone result' is only checked by the -race runs (9 hand-written scenarios + one generic scenario per shared location with callable accessor functions + one targeted scenario per conflict of the regenerated table; 8 goroutines; thorough 16), which observe only the schedules that happen. The lock-set translator is a syntactic approximation (locks held = Lock/RLock seen earlier in the same function and not yet released; shared objects = package-level maps, map fields of structs carrying a mutex, atomics, fields assigned inside once.Do) over 7 files; accesses reached through other files are not listed. Meta() on non-string types writes the registry under its lock (race-free) but changes the receiver (C08 finding). Trusted: Lean kernel, axioms propext/Classical.choice/Quot.sound, go/ast translator, Go race detector.",
+   technique="Lean 4 proofs over tables regenerated from every non-test file of the library by a go/ast translator on each run: (a) lock-sets of all package-level variables, mutex-guarded fields, atomics, Once-written fields and values written after they were published into shared state (Gozod/Gen/LockSets.lean), proved race-free by evaluation of the whole table; (b) the lock-order table (per locking function: acquire/release events, calls that may lock, callbacks; Gozod/Gen/LockOrder.lean) with a general deadlock-freedom theorem for disciplined threads and the discipline proved over the whole table; (c) an interleaving model of the registry and configuration protocols with a linearizability theorem and a verified linearization search that the driver runs on histories recorded from the real code (cross-checked with porcupine); (d) the C08/C12/C15 frame theorems: every schema operation writes only locations it allocated. Failing-schedule search: the harness built with -race, goroutines x operation classes on shared schemas, first-use scenarios behind a start barrier, results cross-checked with run-alone results",
+   text="c14_racefree: any two accesses in the regenerated table to one location are both reads, both atomic, ordered by one sync.Once, or inside critical sections of one mutex (writers in W mode). no_deadlock / progress: threads that acquire locks only in increasing rank and end holding nothing never reach a state where some thread is unfinished and none can move; lockorder_disciplined, lockorder_no_nesting, cb_under_lock_sites, table_no_deadlock: every locking function of the library keeps that discipline, no lock is taken while another is held, and Registry.Range is the only place where user code runs under a library lock. atomic_linearizable: calls that take effect in one atomic step between invocation and response (registry calls, Config, SetConfig(nil)) produce only linearizable histories; run_alone_key: calls about one schema return what they return in the run containing only them; reads_run_alone; search_sound/search_complete: the search run on recorded histories decides linearizability. c14_schema_ops_read_only: chaining calls, ToJSONSchema and default-resolving Parse leave every pre-existing store location untouched. Witnesses (open known findings, each confirmed on the real code): locales_unsynchronised, lazy_cache_unsynchronised (data races), setconfig_lost_update (SetConfig is Load then Store: overlapping calls lose updates, history not linearizable), range_reenter_undisciplined / range_reenter_stuck (a Range callback that uses a chaining method deadlocks).",
+   note="PARTIAL. The Go memory model, the sync primitives and the scheduler are not modelled (locks in the deadlock model are exclusive and non-re-entrant); the translator is a syntactic approximation (locks held = Lock/RLock seen earlier in the same function and not yet released; calls and fields resolved by name; mutation through methods of package-level values of foreign types only listed). 'Every result equals the run-alone result' is proved for the registry/configuration model and otherwise checked by the runs: -race scenarios (hand-written, one per shared location with callable accessors, one per conflict of the regenerated table, first-use scenarios over fresh struct types / JSON-Schema documents / 249 generated constructor calls compared with a cold run-alone process) and recorded histories, which observe only the schedules that happen. Trusted: Lean kernel, axioms propext/Classical.choice/Quot.sound, go/ast translator, Go race detector, porcupine (support).",
    design="DESIGN.md §5 C14", category="proof")
 
 MODULES = ["Gozod.Proofs.C14", "Gozod.Proofs.C14Order", "Gozod.Proofs.C14Lin"]
@@ -129,7 +129,7 @@ def race_run(res, targets):
     if rc != 0:
         return None, "race harness failed rc=%d:\n%s" % (rc, out[-3000:])
     # recorded histories of the registry and the configuration (harness/racex), appended to the same streams
-    rc, out = C.run([C.harness_bin("C14") + "-hist", "-seed", str(res.seed), "-tier", res.tier, "-out", rundir], env=C.goenv(), timeout=1200)
+    rc, out = C.run([C.harness_bin("C14") + "-hist", "-seed", str(res.seed), "-tier", getattr(res, "_hist_tier", res.tier), "-out", rundir], env=C.goenv(), timeout=1200)
     if rc != 0:
         return None, "history recorder failed rc=%d:\n%s" % (rc, out[-3000:])
     for a, b in (("hist-ops.txt", "ops.txt"), ("hist-impl.txt", "impl.txt")):
@@ -197,6 +197,15 @@ def run(res):
     if err:
         C.tie_broken(res, "translator C14/lock-sets", err)
         return res.finish()
+    # structure fingerprints of the functions Model/Conc.lean transcribes (registry, configuration): an edit aims the run —
+    # the history recorder, whose histories call every one of them, runs at the thorough size
+    changed = C.fingerprint(res, "C14")
+    gone = [c for c in changed if c[2] == "missing"]
+    if gone:
+        C.tie_broken(res, "fingerprint " + gone[0][0], "the function transcribed as %s is no longer in the sources" % gone[0][1])
+    res._hist_tier = "thorough" if changed else res.tier
+    if changed:
+        res.notes.append("modelled functions edited since the transcription was validated: " + "; ".join("%s [%s]" % (c[0], c[2]) for c in changed) + " — history recorder at thorough size")
     ok, detail = C.prove(res, MODULES, THEOREMS)
     # When the proof over the regenerated table breaks: the falsifying cells (location + functions) aim the race
     # harness — goroutines hammering exactly those functions — and a race report / crash is the concrete failing
@@ -234,10 +243,14 @@ def run(res):
         "Add/Get/Has/Remove/Range + Meta/Describe; SetConfig/Config + Parse; first use of a lazy schema vs chaining (40 fresh schemas); regex-cache "
         "backed formats; RegisterLocale vs formatters; every schema type: probe-set parse + ToJSONSchema + Optional + Describe), each in its own "
         "process under the race detector, 8 goroutines x 60 iterations x rounds (thorough: 16 x 400), every result compared with the run-alone result "
-        "of a twin family. distinct = scenarios.")
+        "of a twin family. first-use:<family> = every entry (struct type / JSON-Schema document / constructor the process has not used) called by all goroutines at once behind a spin barrier, "
+        "rendering compared with a cold run-alone process; range-reenter = Range callback using a chaining method, 4 s watchdog. "
+        "hist <kind> = histories recorded from the real registry / configuration (harness/racex: 3 goroutines x 2 calls released together before every call, + calls afterwards), "
+        "all non-linearizable ones (first 5) and a sample of the linearizable ones; distinct = scenarios + histories.")
     res.assumptions += [
         "Go memory model, sync.Mutex/RWMutex/Once and sync/atomic behave as documented (not modelled)",
         "the race detector only sees the schedules that occur in the run",
-        "lock-sets are extracted syntactically from 7 files (core/registry.go, core/config.go, core/interfaces.go, types/lazy.go, pkg/regex/{networks,primitives}.go, locales/locales.go)",
+        "lock-sets and lock order are extracted syntactically (go/ast, names not types) from every non-test file of the library outside examples/, docs/, testdata/, cmd/",
+        "recorded histories: invocation/response order taken from one global atomic counter; only the schedules that occur are observed",
     ]
     return res.finish()
